@@ -3,6 +3,7 @@ import gen_bank as G
 import gen_hops as H
 import hops_oracles as O
 from props import c16 as C16
+from props import c12 as C12
 ID = "C02"
 MANIFEST = {
     "text": ("Kernel-checked invariant over the wrapper state machine (any number of banks and accounts, operation sequences of any "
@@ -43,11 +44,15 @@ def suites(rng, tier):
     c = [C16.gen_life(rng) for _ in range(k)]
     return [{"suite": "bankops", "name": "bankops-ledger", "lines": a, "distribution": {"cases": n, "max_ops": 28}},
             {"suite": "hops", "name": "hops-ledger", "lines": b, "distribution": {"cases": m, "max_ops": 24}},
+            {"suite": "delevsim", "name": "deleverage-purge-ledger", "lines": [C12.gen_delev_case(rng) for _ in range({"quick": 300, "thorough": 5000, "search": 2000}[tier])],
+             "distribution": {"note": "forced-deleverage transactions and the risk admin's purge_delev_balance (real handlers): totals must move with the positions, a purge abandons only dust"}},
             {"suite": "acctlife", "name": "account-close-transfer-ledger", "lines": c,
              "distribution": {"cases": k, "note": "real marginfi_account_close / transfer_to_new_account on accounts with arbitrary positions: positions may only disappear with the account when they hold no shares, and a transfer moves them unchanged"}}]
 
 
 def nontrivial(suite, case, impl):
+    if suite == "delevsim":
+        return C12.nontrivial(suite, case, impl)
     if suite == "acctlife":
         return " | OK" in (" | " + impl) or impl.startswith("OK")
     if suite == "hops":
@@ -84,7 +89,53 @@ def oracle_acctlife(case, impl):
     return None
 
 
+def oracle_delevsim(case, impl):
+    """ledger view of the deleverage suite: after every successful step every bank's totals cover the sum of all positions,
+    the excess never shrinks, and it grows only by dust (a few closes per transaction, each < 0.0001 unit or share)"""
+    try:
+        nb, na, banks, ops = C12.parse_delev_case(case)
+    except Exception:
+        return None
+    parts = impl.split(" | ")
+    if len(parts) != len(ops):
+        return None
+    ex = None
+    for o_, outp in zip(ops, parts):
+        secs = outp.split(" # ")
+        if not secs[0].startswith("OK"):
+            continue
+        bks = [list(map(int, b.split())) for b in secs[1].split(" ; ")]
+        sa, sl = [0] * nb, [0] * nb
+        for a in secs[2].split(" ; "):
+            tt = a.split()
+            if tt[0] == "-":
+                continue
+            for sl_ in tt[0].split(","):
+                g = list(map(int, sl_.split(":")))
+                k = g[1] - 1
+                if 0 <= k < nb:
+                    sa[k] += g[3]
+                    sl[k] += g[4]
+        cur = []
+        for k in range(nb):
+            asv, lsv, tas, tls = bks[k][0], bks[k][1], bks[k][2], bks[k][3]
+            if tas < sa[k] or tls < sl[k]:
+                return {"key": "total-below-positions", "what": f"deleverage op {o_[0]}: bank {k} totals ({tas},{tls}) < sum of positions ({sa[k]},{sl[k]})"}
+            cur.append((tas - sa[k], tls - sl[k]))
+            if ex is not None:
+                da, dl = cur[k][0] - ex[k][0], cur[k][1] - ex[k][1]
+                if da < 0 or dl < 0:
+                    return {"key": "excess-shrank", "what": f"deleverage op {o_[0]}: bank {k} excess of totals over positions fell by ({-da},{-dl})"}
+                lim = 8 * (THR + 1)      # at most a few positions are closed by one transaction
+                if da * asv // ONE >= lim and da >= lim or dl * lsv // ONE >= lim and dl >= lim:
+                    return {"key": "abandoned-more-than-dust", "what": f"deleverage op {o_[0]}: bank {k} abandoned ({da},{dl}) shares"}
+        ex = cur
+    return None
+
+
 def oracle(suite, case, impl):
+    if suite == "delevsim":
+        return oracle_delevsim(case, impl)
     if suite == "acctlife":
         return oracle_acctlife(case, impl)
     if suite == "hops":
